@@ -26,28 +26,84 @@ type putter interface {
 type flaw int
 
 const (
-	flawNone           flaw = iota
-	flawDuplicate           // a shared object is copied once per reference
-	flawMerge               // two different source objects share one target object
-	flawEmptyArray          // [] written as null
-	flawEmptyDict           // <<>> written as null
-	flawDropEntry           // last dictionary entry dropped
-	flawStreamBytes         // first byte of the stream data changed
-	flawNullInArray         // null array elements dropped
-	flawDeadRefKept         // dangling reference copied as a reference to an integer
-	flawIgnoreRedir         // Redirect ignored
-	flawNewRefTwice         // CopyReference allocates a new object on every call
-	flawDirectNullOK        // (not a flaw) dead references become direct nulls
-	flawStaleAliased        // a stale reference (wrong generation) is translated like the live one
-	flawStaleKillsLive      // a stale reference seen first takes the table entry of the live object: the live object is lost
-	flawNestedString        // the string inside a nested direct container is altered
-	flawNestedRef           // the reference inside a nested direct container is not translated (left dangling)
-	flawParmRefKept         // the reference inside a filter parameter dictionary keeps its source number (the object is copied all the same)
-	flawParmRefDup          // ... leads to a copy of its own instead of the shared one
-	flawParmEntryLost       // ... is dropped from the parameter dictionary
-	flawParmsStale          // a null entry of an array-valued /DecodeParms receives the value of the nearest non-null entry before it
-	flawParmsShifted        // the entries of an array-valued /DecodeParms move one position to the left (the last becomes null)
+	flawNone            flaw = iota
+	flawDuplicate            // a shared object is copied once per reference
+	flawMerge                // two different source objects share one target object
+	flawEmptyArray           // [] written as null
+	flawEmptyDict            // <<>> written as null
+	flawDropEntry            // last dictionary entry dropped
+	flawStreamBytes          // first byte of the stream data changed
+	flawNullInArray          // null array elements dropped
+	flawDeadRefKept          // dangling reference copied as a reference to an integer
+	flawIgnoreRedir          // Redirect ignored
+	flawNewRefTwice          // CopyReference allocates a new object on every call
+	flawDirectNullOK         // (not a flaw) dead references become direct nulls
+	flawStaleAliased         // a stale reference (wrong generation) is translated like the live one
+	flawStaleKillsLive       // a stale reference seen first takes the table entry of the live object: the live object is lost
+	flawNestedString         // the string inside a nested direct container is altered
+	flawNestedRef            // the reference inside a nested direct container is not translated (left dangling)
+	flawParmRefKept          // the reference inside a filter parameter dictionary keeps its source number (the object is copied all the same)
+	flawParmRefDup           // ... leads to a copy of its own instead of the shared one
+	flawParmEntryLost        // ... is dropped from the parameter dictionary
+	flawParmsStale           // a null entry of an array-valued /DecodeParms receives the value of the nearest non-null entry before it
+	flawParmsShifted         // the entries of an array-valued /DecodeParms move one position to the left (the last becomes null)
+	flawNameHashRaw          // a number sign in a name (value or key) is written as it is: followed by two hexadecimal digits it reads back as an escape
+	flawNameCutAtDelim       // a name (value or key) ends before its first delimiter or white-space byte (written as it is, the reader ends the name there)
+	flawNameHighDropped      // bytes above 0x7E are dropped from names
 )
+
+// flawedName is what a name of the name family becomes under the flaws that
+// concern names (the name itself otherwise).
+func (mc *modelCopier) flawedName(n pdf.Name) pdf.Name {
+	isHex := func(c byte) bool { return c >= '0' && c <= '9' || c >= 'a' && c <= 'f' || c >= 'A' && c <= 'F' }
+	val := func(c byte) byte {
+		switch {
+		case c <= '9':
+			return c - '0'
+		case c >= 'a':
+			return c - 'a' + 10
+		}
+		return c - 'A' + 10
+	}
+	b := []byte(n)
+	var out []byte
+	switch mc.flaw {
+	case flawNameHashRaw:
+		for i := 0; i < len(b); i++ {
+			if b[i] == '#' && i+2 < len(b) && isHex(b[i+1]) && isHex(b[i+2]) {
+				out = append(out, val(b[i+1])<<4|val(b[i+2]))
+				i += 2
+				continue
+			}
+			out = append(out, b[i])
+		}
+	case flawNameCutAtDelim:
+		for _, c := range b {
+			if c == 0 || c == 9 || c == 10 || c == 12 || c == 13 || c == 32 || c == '(' || c == ')' || c == '<' || c == '>' ||
+				c == '[' || c == ']' || c == '{' || c == '}' || c == '/' || c == '%' {
+				break
+			}
+			out = append(out, c)
+		}
+	case flawNameHighDropped:
+		for _, c := range b {
+			if c <= 0x7e {
+				out = append(out, c)
+			}
+		}
+	default:
+		return n
+	}
+	return pdf.Name(out)
+}
+
+// key is the key of the entry holding the item in the copy.
+func (mc *modelCopier) key(base pdf.Name, it Item) pdf.Name {
+	if it.K == 'y' {
+		return mc.flawedName(entryKey(base, it))
+	}
+	return base
+}
 
 type modelCopier struct {
 	s        *source
@@ -63,8 +119,10 @@ type modelCopier struct {
 
 func (mc *modelCopier) item(it Item, j, p int) pdf.Object {
 	switch it.K {
-	case 'i':
+	case 'i', 'y':
 		return itemInt(j, p)
+	case 'k':
+		return mc.flawedName(pdf.Name(nameString(it.R)))
 	case 's':
 		return itemStr(j, p)
 	case 'n', 'N', 'M':
@@ -87,7 +145,7 @@ func (mc *modelCopier) item(it Item, j, p int) pdf.Object {
 	case 'A':
 		return pdf.Array{mc.nestedInner(it, j, p)}
 	case 'T':
-		return pdf.Dict{nestedKey: mc.nestedInner(it, j, p)}
+		return pdf.Dict{mc.key(nestedKey, it.inner()): mc.nestedInner(it, j, p)}
 	}
 	return mc.ref(it)
 }
@@ -187,14 +245,14 @@ func (mc *modelCopier) contentOf(o Obj, j int) pdf.Object {
 			if mc.flaw == flawDropEntry && p == len(o.It)-1 {
 				continue
 			}
-			d[dictKeys[p]] = mc.item(it, j, p)
+			d[mc.key(dictKeys[p], it)] = mc.item(it, j, p)
 		}
 		return d
 	case 'S':
 		d := pdf.Dict{}
 		pIt, kIt, kPos := o.stmParts()
 		if len(kIt) > 0 {
-			d[stmKey] = mc.item(kIt[0], j, kPos)
+			d[mc.key(stmKey, kIt[0])] = mc.item(kIt[0], j, kPos)
 		}
 		plain := plainData(j, o.V)
 		if mc.flaw == flawStreamBytes {
@@ -305,6 +363,8 @@ func (mc *modelCopier) contentOf(o Obj, j int) pdf.Object {
 		return pdf.NewStream(d, raw)
 	case 'r':
 		return mc.ref(o.It[0])
+	case 'q':
+		return mc.item(o.It[0], j, 0)
 	}
 	panic("bad object")
 }
